@@ -3,7 +3,7 @@ import steps_C20
 
 ID = "C20"
 PROP = {
-    "modules": ["Gnmi.Props.C20", "Gnmi.Props.C20More", "Gnmi.Props.C20Fixed"],
+    "modules": ["Gnmi.Props.C20", "Gnmi.Props.C20More", "Gnmi.Props.C20Fixed", "Gnmi.Props.C20Agent"],
     "theorems": ["Gnmi.C20." + t for t in [
         "build_never_fails", "built_inv", "built_vals", "addValue_is_sorted_insert", "sorted_invariant",
         "next_keeps_sorted", "emission_nondecreasing", "emissions_chain", "first_emission_is_configured",
@@ -17,10 +17,21 @@ PROP = {
         # Props/C20Fixed.lean (FixedQueue)
         "run_conservation", "emits_take", "after_drop", "exhausted_nil", "next_no_panic", "next_good",
         "next_delay_law", "next_last_keeps_delay", "next_nodelay", "nodelay_never_sleeps", "slept_nonneg",
-        "lastTS_mono", "sorted_delays", "stale_delay", "panic_loses_response", "delay_wraps"]],
+        "lastTS_mono", "sorted_delays", "stale_delay", "panic_loses_response", "delay_wraps",
+        # Props/C20Agent.lean (what a subscriber of the fake agent receives; Model/FakeAgent.lean)
+        "valToResp_faithful", "valToResp_ok_iff", "wireOf_facts", "stream_is_emits_general", "stream_is_emits",
+        "stream_transfer", "stream_length", "stream_nondecreasing", "stream_repeat_count", "stream_delta_bounds", "pq_gen_end", "stream_end_cases", "eof_iff",
+        "held_iff", "unbounded_never_ends", "emit_origin", "sync_emission_iff", "sync_after_firsts_stream",
+        "sync_exactly_once_at_end", "no_sync_when_disabled", "pq_fixed", "fixed_stream_verbatim",
+        "generator_selection", "subscribe_always_served", "rejected_iff", "unknown_target_not_rejected",
+        "stamp_target", "target_only_stamps", "second_subscriber_same_stream", "new_iff",
+        "polls_ignored_outside_poll_mode", "poll_replays", "poll_held_when_disable_eof", "instantiate_congr",
+        "same_seed_same_stream", "same_seed_same_generator", "built_queue", "built_noUnset",
+        "unknown_target_served_witness", "eof_witness", "error_looks_like_eof"]],
     "components": [
         {"c": "fq", "quick": {"n": 1500, "exhaustive": True}, "thorough": {"n": 6000, "exhaustive": True, "seeds": 4}},
         {"c": "fx", "quick": {"n": 1500, "exhaustive": True}, "thorough": {"n": 8000, "exhaustive": True, "seeds": 4}},
+        {"c": "fa", "quick": {"n": 500, "exhaustive": True}, "thorough": {"n": 4000, "exhaustive": True, "seeds": 4}},
     ],
     # classification of divergences (failing input <=> a Go-side, model-independent monitor fails) and
     # the monitor-only search for a failing input when only the tie broke
@@ -36,7 +47,15 @@ PROP = {
             "and without sync. Every `new` line is also the verdict of the model-independent monitors (ordering, delta bounds, "
             "range/options/rotation, repeat counts, sync position, determinism, error-only-on-defect) on 60-200 further Next "
             "calls of a separate pair of real generators and of the real fake agent. A sequence is non-trivial when it has >= 3 "
-            "ops and an observation other than ok/err/nil; distinct = by hash of its op lines",
+            "ops and an observation other than ok/err/nil; distinct = by hash of its op lines. "
+            "fa sequences: one REAL fake agent (fgnmi.New on a loopback listener) per configuration - generated values of every kind "
+            "(0-5 values, repeats 0/1/k/-k, kind-less values, ~10% with a defect) or a fixed response list (notifications with and "
+            "without prefix, sync, unset, nil-notification wrappers, enable_delay), disable_sync / disable_eof, generator none/custom/"
+            "random/fixed - and 1-3 Subscribe RPCs (in process on a scripted stream, or over loopback gRPC) with mode STREAM/ONCE/POLL, "
+            "prefix target absent/empty/own/foreign, a read limit and 0-2 Poll requests, plus rejected first requests; every response "
+            "(kind, path, value, timestamp, prefix) and the end of the stream (eof / held / awaiting poll / still open / status code) "
+            "is compared with Model/FakeAgent.lean. Exhaustive scope: every kind/distribution arm x repeat 1/3/unbounded x 5 "
+            "(sync, disable_eof, mode) settings; every fixed list of length <= 2 over 6 response shapes x delay x the 5 settings",
     "trusted_base": COMMON_TB + [
         "math/rand: Int63n, Int31n, int31n, Intn, Float64, Shuffle transcribed (Model/FakeQueue.lean) on top of a raw draw stream; "
         "the additive lagged Fibonacci source itself is not modelled: the harness hands the model the raw Int63() draws of an "
@@ -44,6 +63,9 @@ PROP = {
         "float64: theorems hold for every strict total order (NaN excluded); the driver executes with Lean Float (IEEE double, "
         "no fused multiply-add on amd64), observations compared by bit pattern",
         "proto.Clone / proto.Equal as value copy / structural equality",
+        "fa: gRPC transport and the scripted in-process stream; the states `held` / `awaiting poll` are read off the goroutine "
+        "dump (runtime.Stack: Client.send parked in [chan receive] inside send / processQueue); rand.NewSource(seed) is a "
+        "function of the seed (parameter `src` of same_seed_same_stream)",
     ],
     "assumptions": [
         "NoOverflow: no int64 overflow in timestamps, values, deltas, range widths (the model checks each such operation and "
@@ -76,7 +98,22 @@ PROP = {
                       "Model/FixedQueue.lean (fixed_queue.go, tied by the fx correspondence on the real FixedQueue): strict FIFO and "
                       "exactly the added responses for every Add/Next history (run_conservation), the delay law as coded "
                       "(next_delay_law, sorted_delays, stale_delay, delay_wraps), no panic unless a nil entry / nil notification is queued "
-                      "with checkDelay (next_no_panic, panic_loses_response).",
+                      "with checkDelay (next_no_panic, panic_loses_response). "
+                      "Props/C20Agent.lean over Model/FakeAgent.lean (client.go Run/reset/nextInQueue/processQueue/send, agent.go New/Subscribe; "
+                      "tied by the fa correspondence on the real agent, in process and over loopback gRPC): the responses a subscriber receives "
+                      "are exactly the emission sequence converted by valToResp and stamped with the requested target, in order "
+                      "(stream_is_emits; up to the first kind-less value in general, stream_is_emits_general), so every theorem about emits "
+                      "carries over (stream_transfer, stream_nondecreasing, stream_length, stream_repeat_count, stream_delta_bounds); valToResp keeps path, timestamp, value and kind "
+                      "(valToResp_faithful, valToResp_ok_iff); the stream ends with a clean EOF iff not disable_eof, not POLL and the queue ran "
+                      "empty, is held with disable_eof, never ends with an unbounded repeat (eof_iff, held_iff, stream_end_cases, "
+                      "unbounded_never_ends; a conversion or queue error also looks like a clean EOF: error_looks_like_eof); the sync response "
+                      "is sync true, unique, after an update of every configured path, present once at exhaustion, absent with disable_sync "
+                      "(sync_after_firsts_stream, sync_exactly_once_at_end, no_sync_when_disabled); the fixed generator replays its responses "
+                      "verbatim + sync (fixed_stream_verbatim, generator_selection); request validation (rejected_iff); the requested target only "
+                      "stamps prefix.target and is never checked - the expected `unknown_target_rejected` is refuted "
+                      "(unknown_target_not_rejected, target_only_stamps, unknown_target_served_witness); every subscriber gets a fresh client "
+                      "(second_subscriber_same_stream); POLL replays the same pass per poll (poll_replays, poll_held_when_disable_eof); the "
+                      "stream depends on math/rand only through rand.NewSource of the seeds named in the configuration (same_seed_same_stream).",
         "level_note": "Trusted: Lean kernel (axioms propext, Quot.sound, Classical.choice only), the hand-written model "
                       "Model/FakeQueue.lean as validated by the correspondence harness, Go runtime and math/rand's source (rngSource). "
                       "Assumes no int64 overflow (checked in the model), no NaN, non-zero seed.",
